@@ -89,6 +89,30 @@ MUTATIONS = [
      ['if npartition > 1 and npartition > n1d // 2 and nthread > 1:', 'npartition = min(n1d // 2, 2 * nthread)']),
     ('c13-narrow-default', 'C13', 'abacusnbody/analysis/tsc.py',
      'npartition = min(n1d // 3, 2 * nthread)', 'npartition = min(n1d // 2, 2 * nthread)'),
+    # ---- C09
+    ('c09-elg-not-stacked', 'C09', 'abacusnbody/hod/GRAND_HOD.py', '            ELG_marker = LRG_marker\n            if want_ELG:\n                logM_cut_E_temp = (\n                    logM_cut_E + Ac_E * deltac[i]',
+     '            ELG_marker = 0\n            if want_ELG:\n                logM_cut_E_temp = (\n                    logM_cut_E + Ac_E * deltac[i]'),
+    ('c09-cent-strict-threshold', 'C09', 'abacusnbody/hod/GRAND_HOD.py', '            if randoms[i] <= LRG_marker:\n                Nout[tid, 0, 0] += 1  # counting\n                keep[i] = 1\n            elif randoms[i] <= ELG_marker:\n                Nout[tid, 1, 0] += 1  # counting\n                keep[i] = 2\n            elif randoms[i] <= QSO_marker:\n                Nout[tid, 2, 0] += 1  # counting\n                keep[i] = 3\n            else:\n                keep[i] = 0\n\n    # compose galaxy array, first create array of galaxy starting indices for the threads\n    gstart = np.empty((Nthread + 1, 3), dtype=np.int64)\n    gstart[0, :] = 0\n    gstart[1:, 0] = Nout[:, 0, 0].cumsum()\n    gstart[1:, 1] = Nout[:, 1, 0].cumsum()\n    gstart[1:, 2] = Nout[:, 2, 0].cumsum()\n\n    # galaxy arrays\n    N_lrg = gstart[-1, 0]\n    lrg_x = np.empty(N_lrg, dtype=mass.dtype)',
+     '            if randoms[i] <= LRG_marker * 0.999:\n                Nout[tid, 0, 0] += 1  # counting\n                keep[i] = 1\n            elif randoms[i] <= ELG_marker:\n                Nout[tid, 1, 0] += 1  # counting\n                keep[i] = 2\n            elif randoms[i] <= QSO_marker:\n                Nout[tid, 2, 0] += 1  # counting\n                keep[i] = 3\n            else:\n                keep[i] = 0\n\n    # compose galaxy array, first create array of galaxy starting indices for the threads\n    gstart = np.empty((Nthread + 1, 3), dtype=np.int64)\n    gstart[0, :] = 0\n    gstart[1:, 0] = Nout[:, 0, 0].cumsum()\n    gstart[1:, 1] = Nout[:, 1, 0].cumsum()\n    gstart[1:, 2] = Nout[:, 2, 0].cumsum()\n\n    # galaxy arrays\n    N_lrg = gstart[-1, 0]\n    lrg_x = np.empty(N_lrg, dtype=mass.dtype)'),
+    ('c09-multiplicity-dropped', 'C09', 'abacusnbody/hod/GRAND_HOD.py', 'N_cen_QSO(mass[i], logM_cut_Q_temp, sigma_Q) * ic_Q * multis[i]', 'N_cen_QSO(mass[i], logM_cut_Q_temp, sigma_Q) * ic_Q'),
+    ('c09-wrong-host-id', 'C09', 'abacusnbody/hod/GRAND_HOD.py', '                elg_mass[j2] = hmass[i]\n                elg_id[j2] = hid[i]', '                elg_mass[j2] = hmass[i]\n                elg_id[j2] = hid[j2]'),
+    ('c09-velocity-bias-sign', 'C09', 'abacusnbody/hod/GRAND_HOD.py', 'lrg_vz[j1] = hvel[i, 2] + alpha_s_L * (\n                    pvel[i, 2] - hvel[i, 2]\n                )', 'lrg_vz[j1] = hvel[i, 2] + alpha_s_L * (\n                    hvel[i, 2] - pvel[i, 2]\n                )'),
+    ('c09-rsd-no-wrap', 'C09', 'abacusnbody/hod/GRAND_HOD.py', 'qso_z[j3] = wrap(pos[i, 2] + qso_vz[j3] * inv_velz2kms, lbox)', 'qso_z[j3] = pos[i, 2] + qso_vz[j3] * inv_velz2kms'),
+    ('c09-wrap-half-open', 'C09', 'abacusnbody/hod/GRAND_HOD.py', '    if x >= L2:\n        return x - L', '    if x > L2 + 1.0:\n        return x - L'),
+    ('c09-conformity-swapped', 'C09', 'abacusnbody/hod/GRAND_HOD.py', '                if keep_cent[i] == 1:\n                    M1_E_temp = 10 ** (logM1_EL', '                if keep_cent[i] == 2:\n                    M1_E_temp = 10 ** (logM1_EL', 1),
+    ('c09-sat-weight-dropped', 'C09', 'abacusnbody/hod/GRAND_HOD.py', '                        hmass[i], 10**logM_cut_Q_temp, kappa_Q, M1_Q_temp, alpha_Q\n                    )\n                    * weights[i]', '                        hmass[i], 10**logM_cut_Q_temp, kappa_Q, M1_Q_temp, alpha_Q\n                    )'),
+    ('c09-lightcone-projection', 'C09', 'abacusnbody/hod/GRAND_HOD.py', '                    elg_y[j2] = elg_y[j2] + proj * ny\n                    elg_z[j2] = elg_z[j2] + proj * nz\n                elif rsd:\n                    elg_z[j2] = wrap(pos[i, 2]', '                    elg_y[j2] = elg_y[j2] + proj * nx\n                    elg_z[j2] = elg_z[j2] + proj * nz\n                elif rsd:\n                    elg_z[j2] = wrap(pos[i, 2]'),
+    ('c09-sats-before-cents', 'C09', 'abacusnbody/hod/GRAND_HOD.py', "                HOD_dict_cent[tracer][k], HOD_dict_sat[tracer][k], Nthread", "                HOD_dict_sat[tracer][k], HOD_dict_cent[tracer][k], Nthread"),
+    # ---- C10
+    ('c10-fill-offset-shared', 'C10', 'abacusnbody/hod/GRAND_HOD.py', '        j1, j2, j3 = gstart[tid]\n        for i in range(hstart[tid], hstart[tid + 1]):\n            if keep[i] == 1:\n                # loop thru', '        j1, j2, j3 = gstart[0]\n        for i in range(hstart[tid], hstart[tid + 1]):\n            if keep[i] == 1:\n                # loop thru'),
+    ('c10-count-wrong-tracer', 'C10', 'abacusnbody/hod/GRAND_HOD.py', '            elif randoms[i] <= ELG_marker:\n                Nout[tid, 1, 0] += 1  # counting\n                keep[i] = 2\n            elif randoms[i] <= QSO_marker:\n                Nout[tid, 2, 0] += 1  # counting\n                keep[i] = 3\n            else:\n                keep[i] = 0\n\n    # compose galaxy array, first create array of galaxy starting indices for the threads\n    gstart = np.empty((Nthread + 1, 3), dtype=np.int64)\n    gstart[0, :] = 0\n    gstart[1:, 0] = Nout[:, 0, 0].cumsum()\n    gstart[1:, 1] = Nout[:, 1, 0].cumsum()\n    gstart[1:, 2] = Nout[:, 2, 0].cumsum()\n\n    # galaxy arrays\n    N_lrg = gstart[-1, 0]\n    lrg_x = np.empty(N_lrg, dtype=hmass.dtype)',
+     '            elif randoms[i] <= ELG_marker:\n                Nout[tid, 1, 0] += 1  # counting\n                keep[i] = 2\n            elif randoms[i] <= QSO_marker:\n                Nout[tid, 1, 0] += 1  # counting\n                keep[i] = 3\n            else:\n                keep[i] = 0\n\n    # compose galaxy array, first create array of galaxy starting indices for the threads\n    gstart = np.empty((Nthread + 1, 3), dtype=np.int64)\n    gstart[0, :] = 0\n    gstart[1:, 0] = Nout[:, 0, 0].cumsum()\n    gstart[1:, 1] = Nout[:, 1, 0].cumsum()\n    gstart[1:, 2] = Nout[:, 2, 0].cumsum()\n\n    # galaxy arrays\n    N_lrg = gstart[-1, 0]\n    lrg_x = np.empty(N_lrg, dtype=hmass.dtype)'),
+    ('c10-concat-drops-row', 'C10', 'abacusnbody/hod/GRAND_HOD.py', 'for i in range(hstart2[tid - Nthread1], hstart2[tid + 1 - Nthread1]):', 'for i in range(hstart2[tid - Nthread1] + (tid > Nthread1), hstart2[tid + 1 - Nthread1]):'),
+    ('c10-concat-thread-split', 'C10', 'abacusnbody/hod/GRAND_HOD.py', 'Nthread1 = max(1, int(np.floor(Nthread * N1 / (N1 + N2))))', 'Nthread1 = max(1, int(np.ceil(Nthread * N1 / (N1 + N2))))'),
+    ('c10-second-pass-blocks', 'C10', 'abacusnbody/hod/GRAND_HOD.py', '    for tid in numba.prange(Nthread):\n        j1, j2, j3 = gstart[tid]\n        for i in range(hstart[tid], hstart[tid + 1]):\n            if keep[i] == 1:\n                lrg_x[j1] = ppos[i, 0]', '    hstart = np.floor(np.linspace(0, H, Nthread + 1)).astype(np.int64)\n    for tid in numba.prange(Nthread):\n        j1, j2, j3 = gstart[tid]\n        for i in range(hstart[tid], hstart[tid + 1]):\n            if keep[i] == 1:\n                lrg_x[j1] = ppos[i, 0]'),
+    ('c10-shared-counter', 'C10', 'abacusnbody/hod/GRAND_HOD.py', '            if randoms[i] <= LRG_marker:\n                Nout[tid, 0, 0] += 1  # counting\n                keep[i] = 1\n            elif randoms[i] <= ELG_marker:\n                Nout[tid, 1, 0] += 1  # counting\n                keep[i] = 2\n            elif randoms[i] <= QSO_marker:\n                Nout[tid, 2, 0] += 1  # counting\n                keep[i] = 3\n            else:\n                keep[i] = 0\n\n    # compose galaxy array, first create array of galaxy starting indices for the threads\n    gstart = np.empty((Nthread + 1, 3), dtype=np.int64)\n    gstart[0, :] = 0\n    gstart[1:, 0] = Nout[:, 0, 0].cumsum()\n    gstart[1:, 1] = Nout[:, 1, 0].cumsum()\n    gstart[1:, 2] = Nout[:, 2, 0].cumsum()\n\n    # galaxy arrays\n    N_lrg = gstart[-1, 0]\n    lrg_x = np.empty(N_lrg, dtype=mass.dtype)',
+     '            if randoms[i] <= LRG_marker:\n                Nout[0, 0, 0] += 1  # counting\n                keep[i] = 1\n            elif randoms[i] <= ELG_marker:\n                Nout[tid, 1, 0] += 1  # counting\n                keep[i] = 2\n            elif randoms[i] <= QSO_marker:\n                Nout[tid, 2, 0] += 1  # counting\n                keep[i] = 3\n            else:\n                keep[i] = 0\n\n    # compose galaxy array, first create array of galaxy starting indices for the threads\n    gstart = np.empty((Nthread + 1, 3), dtype=np.int64)\n    gstart[0, :] = 0\n    gstart[1:, 0] = Nout[:, 0, 0].cumsum()\n    gstart[1:, 1] = Nout[:, 1, 0].cumsum()\n    gstart[1:, 2] = Nout[:, 2, 0].cumsum()\n\n    # galaxy arrays\n    N_lrg = gstart[-1, 0]\n    lrg_x = np.empty(N_lrg, dtype=mass.dtype)'),
+    ('c10-searchsorted-shared', 'C10', 'abacusnbody/hod/abacus_hod.py', '        res[i] = np.searchsorted(a, b[i])', '        res[i // 2 * 2] = np.searchsorted(a, b[i])'),
     # ---- C17
     ('c17-shared-histogram', 'C17', 'abacusnbody/analysis/tsc.py',
      'counts[t, keys[i]] += 1', 'counts[0, keys[i]] += 1'),
@@ -114,6 +138,7 @@ def scratch_copy():
 
 def run_mutation(m, seconds=None):
     name, pid, rel, old, new = m[:5]
+    occurrence = m[5] if len(m) > 5 else 0
     d = scratch_copy()
     try:
         p = os.path.join(d, rel)
@@ -123,7 +148,9 @@ def run_mutation(m, seconds=None):
         for o, nw in zip(olds, news):
             if src.count(o) < 1:
                 return name, pid, 'STALE (pattern not found)', 0.0
-            src = src.replace(o, nw, 1)
+            parts = src.split(o)
+            k = min(occurrence, len(parts) - 2)
+            src = o.join(parts[:k + 1]) + nw + o.join(parts[k + 1:])
         with open(p, 'w') as fh:
             fh.write(src)
         env = dict(os.environ, VERIF_REPO=d, VERIF_EVIDENCE_DIR=os.path.join(d, 'evidence'))
